@@ -1704,6 +1704,16 @@ def long_chain_cases(rng, n):
         c = h.newb(); h.ops.append("%s=copy %s" % (c, q1)); h.ops.append("%s %s %s" % (rng.choice(["add", "sub", "mult"]), c, ov)); h.ops.append("obs %s" % c)
         h.ops.append("%s,%s=quorem %s %s" % (h.newb(), h.newb(), q1, ov))
         h.ops.append("%s=rem %s %s" % (h.newb(), q1, ov))
+        # (round 10, C17-R10b) divisor LISTS with two different problems: a clean polynomial of another ring object and an
+        # Overflow-carrying polynomial of the dividend's own ring, in both orders (the carried kind is reported, whatever
+        # stands first), with a clean divisor in between
+        q2c = h.newb(); h.ops.append("%s=map@2 1:1:1/0:0:1" % q2c)
+        ov0a = h.newb(); h.ops.append("%s=map@0 %d:1:1/0:0:1" % (ov0a, 2 ** 63))
+        ov0 = h.newb(); h.ops.append("%s=times %s %s" % (ov0, ov0a, ov0a))
+        q1b = h.bpoly(nterms=2, box=3, ring=0)
+        for lst in ([q2c, ov0], [ov0, q2c], [q1b, q2c, ov0], [q2c, q1b, ov0], [ov0, q1b, q2c]):
+            h.ops.append("%s,%s=quorem %s %s" % (h.newb(), h.newb(), q1, " ".join(lst)))
+            h.ops.append("%s=rem %s %s" % (h.newb(), q1, " ".join(lst)))
         L.append(h.line())
     return L
 
